@@ -964,7 +964,7 @@ func genConfig(c *engine.Chooser, family string) Config {
 		// compression the frame on the wire is the body plus a dozen bytes, so the frame length sweeps across
 		// the 1->2 byte (127/128) and 2->3 byte (16383/16384) boundaries of the length prefix one byte at a
 		// time; without compression (and below a huge threshold) the plain frame does the same
-		ch := product(4, 3)
+		ch := product(4, 4)
 		cfg.Threshold = []int{-1, 0, 64, 1 << 20}[ch[0]]
 		lo, hi := 88, 144
 		if ch[1] == 1 {
@@ -978,6 +978,19 @@ func genConfig(c *engine.Chooser, family string) Config {
 			for i, n := range []int{maxPlay - 700, maxPlay - 300, maxPlay} {
 				cfg.S2C = append(cfg.S2C, Pkt{idX, n, 2*i + 1})
 				cfg.C2S = append(cfg.C2S, Pkt{3, n, 2*i + 3})
+			}
+		}
+		if ch[1] == 3 {
+			// id + payload at multiples of the inflater's 32 KiB window, each followed by a small packet: the last
+			// decompressed bytes come out by a window flush, the zlib trailer must still be consumed with the frame
+			lo, hi = 0, 0
+			i := 0
+			for _, b := range []int{1 << 15, 2 << 15, 3 << 15} {
+				for n := b - 3; n <= b; n++ {
+					cfg.S2C = append(cfg.S2C, Pkt{idX, n, 2*i + 1}, Pkt{idY, 5, 2*i + 1})
+					cfg.C2S = append(cfg.C2S, Pkt{3, n, 2*i + 3}, Pkt{4, 7, 2*i + 3})
+					i++
+				}
 			}
 		}
 		for n := lo; n < hi; n++ {
